@@ -253,3 +253,103 @@ def target_dispatch_and_physical_types():
 
 
 TARGETS["dispatch_and_physical_types"] = target_dispatch_and_physical_types
+
+
+def target_reference_types():
+    """_type_check_local_reference and _type_check_constant_reference (the types of names):
+
+       local reference   designates the object of the LAST path element:  runtime parameter -> the expression type of the
+                         parameter's physical type;  virtual field -> its definition is type-checked first, then its type
+                         is copied;  physical array field -> opaque;  other physical field -> the expression type of its
+                         physical type
+       constant reference  enum value -> enumeration named by the reference WITHOUT its last path element (the enum, not
+                         the value);  virtual field -> checked first, type copied;  physical field -> one error (with a
+                         note naming the field) and no type"""
+    tc = importlib.import_module(TC)
+    ir_data = importlib.import_module("compiler.util.ir_data")
+    ir_util = importlib.import_module("compiler.util.ir_util")
+    ir_data_utils = importlib.import_module("compiler.util.ir_data_utils")
+    error = importlib.import_module("compiler.util.error")
+    eng = pyvc.Engine()
+    eng.identity(ir_data_utils.builder)
+    eng.contract(error.error, lambda interp, f, loc, msg: ("ERROR", f, loc, msg), "error.error")
+    eng.contract(error.note, lambda interp, f, loc, msg: ("NOTE", f, loc, msg), "error.note")
+    eng.contract(ir_data.OpaqueType, lambda interp: SRec("OpaqueType", {}), "OpaqueType")
+    eng.contract(ir_util.field_is_virtual, lambda interp, f: f.f["ghost_virtual"], "field_is_virtual")
+    eng.contract(ir_util.find_object, lambda interp, ref, ir: ref.f["ghost_object"], "find_object")
+    checked, phys = [], []
+
+    def ih(interp, e, src, ir, errors):
+        checked.append((e, src))
+        e.f["type"] = SRec("ExpressionType", {"which_type": "integer", "ghost": "type-of-definition"})
+    eng.contract(tc._type_check_expression, ih, "_type_check_expression (definitions: induction hypothesis)")
+
+    def set_from_physical(interp, e, ref, ir):
+        phys.append((e, ref))
+        e.f["type"] = SRec("ExpressionType", {"which_type": "from-physical", "ghost": ref})
+    eng.contract(tc._set_expression_type_from_physical_type_reference, set_from_physical, "_set_expression_type_from_physical_type_reference")
+
+    def fresh_expr(extra):
+        d = {"source_location": ("LOC", "expr")}
+        d.update(extra)
+        return SRec("Expression", d, defaults={"type": lambda rec: SRec("ExpressionType", {}, defaults={
+            "enumeration": lambda r2: SRec("EnumType", {}, defaults={"name": lambda r3: SRec("Reference", {})}),
+            "opaque": lambda r2: SRec("OpaqueType", {})})})
+
+    def harness(c):
+        del checked[:], phys[:]
+        which = c.choice("function", ["local", "constant"])
+        c.covered = True
+        errors = []
+        tref = SRec("Reference", {"ghost": "physical-type"})
+        if which == "local":
+            kind = c.choice("referrent", ["parameter", "virtual", "array", "atomic"])
+            plen = int(c.choice("path-length", ["1", "2"]))
+            if kind == "parameter":
+                obj = SRec("RuntimeParameter", {"physical_type_alias": SRec("Type", {"atomic_type": SRec("AtomicType", {"reference": tref})})})
+            elif kind == "virtual":
+                obj = SRec("Field", {"ghost_virtual": True, "read_transform": SRec("Expression", {})})
+            elif kind == "array":
+                obj = SRec("Field", {"ghost_virtual": False, "type": SRec("Type", {}, defaults={"has:atomic_type": False})})
+            else:
+                obj = SRec("Field", {"ghost_virtual": False, "type": SRec("Type", {"atomic_type": SRec("AtomicType", {"reference": tref})}, defaults={"has:atomic_type": True})})
+            decoy = SRec("Field", {"ghost_virtual": False, "type": SRec("Type", {"atomic_type": SRec("AtomicType", {"reference": SRec("Reference", {"ghost": "decoy"})})}, defaults={"has:atomic_type": True})})
+            path = ([SRec("Reference", {"ghost_object": decoy})] if plen == 2 else []) + [SRec("Reference", {"ghost_object": obj})]
+            e = fresh_expr({"field_reference": SRec("FieldReference", {"path": path})})
+            pyvc.run_body(c, TC + "._type_check_local_reference", [e, "IR", errors])
+            t = e.f.get("type")
+            c.oblige("local:no-error-is-reported-here", errors == [])
+            if kind in ("parameter", "atomic"):
+                c.oblige("local:type-of-the-physical-type-of-the-LAST-path-element", len(phys) == 1 and phys[0][0] is e and phys[0][1] is tref and not checked, detail=repr(phys)[:200])
+            elif kind == "virtual":
+                c.oblige("local:virtual-field's-definition-is-checked-then-its-type-copied", len(checked) == 1 and checked[0][0] is obj.f["read_transform"] and t is not None and t.f.get("ghost") == "type-of-definition" and not phys,
+                         detail=repr(t.f if t is not None else None)[:200])
+            else:
+                c.oblige("local:array-field-is-opaque", t is not None and "opaque" in t.f and not phys and not checked, detail=repr(t.f if t is not None else None)[:200])
+            return
+        kind = c.choice("referred-object", ["enum-value", "virtual-field", "physical-field"])
+        cn = SRec("CanonicalName", {"module_file": "m.emb", "object_path": ["Ee", "VALUE"] if kind == "enum-value" else ["Foo", "ff"]})
+        if kind == "enum-value":
+            obj = SRec("EnumValue", {})
+        else:
+            obj = SRec("Field", {"ghost_virtual": kind == "virtual-field", "read_transform": SRec("Expression", {}), "source_location": ("LOC", "field")})
+        cn.f["ghost_object"] = obj
+        cref = SRec("Reference", {"canonical_name": cn})
+        e = fresh_expr({"constant_reference": cref})
+        pyvc.run_body(c, TC + "._type_check_constant_reference", [e, "m.emb", "IR", errors])
+        t = e.f.get("type")
+        if kind == "enum-value":
+            ok = errors == [] and t is not None and "enumeration" in t.f and t.f["enumeration"].f["name"].f["canonical_name"].f["object_path"] == ["Ee"] and cn.f["object_path"] == ["Ee", "VALUE"]
+            c.oblige("constant:enum-value-has-the-type-of-its-enum-and-the-reference-itself-is-not-shortened", ok, detail=repr(t.f if t is not None else None)[:200])
+        elif kind == "virtual-field":
+            c.oblige("constant:virtual-field's-definition-is-checked-then-its-type-copied", errors == [] and len(checked) == 1 and checked[0][0] is obj.f["read_transform"] and checked[0][1] == "m.emb"
+                     and t is not None and t.f.get("ghost") == "type-of-definition", detail=repr(t.f if t is not None else None)[:200])
+        else:
+            ok = len(errors) == 1 and len(errors[0]) == 2 and errors[0][0][0] == "ERROR" and errors[0][0][2] == ("LOC", "expr") and "physical fields are not allowed" in errors[0][0][3] \
+                and errors[0][1][0] == "NOTE" and errors[0][1][2] == ("LOC", "field") and t is None and not checked
+            c.oblige("constant:physical-field-gives-one-error-with-a-note-and-no-type", ok, detail=repr(errors)[:300])
+    paths = eng.explore(harness)
+    return pyvc.collect(paths, "type_check.reference-types"), sum(1 for p in paths if p.covered)
+
+
+TARGETS["reference_types"] = target_reference_types
